@@ -471,8 +471,12 @@ def outcome_decoders(F, CG):
     out_conv = {e: fs[0] for e, fs in conv.items() if len(fs) == 1}
     E = Engine(F)
     seen = {}
+    seen_bool = {}
+
+    def _boolish(t):
+        return bool(t) and (t.get('name') == 'bool' or (t.get('k') == 'adt' and t.get('path') == 'std::option::Option'))
     for g in F.raw['fns']:
-        if g['kind'] == 'closure' or not _is_pollish(g['locals'][0]['ty']):
+        if g['kind'] == 'closure' or not (_is_pollish(g['locals'][0]['ty']) or _boolish(g['locals'][0]['ty'])):
             continue
         # only functions that call something returning a candidate enum
         if not any(((F.fn(rp) or {}).get('locals') or [{}])[0].get('ty', {}).get('path') in cand
@@ -488,6 +492,30 @@ def outcome_decoders(F, CG):
             if path.exit != 'return':
                 continue
             v = path.ret
+            if _boolish(g['locals'][0]['ty']):
+                # a synchronous wrapper: Some(..) / true = granted, None / false = refused
+                b = None
+                if v[0] == 'const':
+                    b = 1 if v[1] else 0
+                elif v[0] == 'agg' and v[1] == 'std::option::Option':
+                    b = 1 if v[2] == 'Some' else 0
+                else:
+                    k = E.known(path.facts, v)
+                    if k and k[0] == 'eq':
+                        b = 1 if k[1] else 0
+                    else:
+                        k = E.variant_known(path.facts, v)
+                        if k and k[0] == 'eq' and k[1] in ('Some', 'None'):
+                            b = 1 if k[1] == 'Some' else 0
+                if b is None:
+                    continue
+                last = None
+                for e in path.events:
+                    if e['k'] == 'ret' and e.get('ret') is not None and e['ret'][0] == 'agg' and e['ret'][1] in cand:
+                        last = e['ret']
+                if last is not None:
+                    seen_bool.setdefault((last[1], last[2]), set()).add(b)
+                continue
             if v[0] == 'tuple' and v[1]:
                 v = v[1][0]
             pv = v[2] if v[0] == 'agg' and v[1] == POLL else None
@@ -507,7 +535,13 @@ def outcome_decoders(F, CG):
                     last = e['ret']
             if last is not None:
                 seen.setdefault((last[1], last[2]), set()).add((pv, inner))
-    F.outcomes = {'conv': out_conv, 'shape': {k: list(v)[0] for k, v in seen.items() if len(v) == 1}}
+    shape = {k: list(v)[0] for k, v in seen.items() if len(v) == 1}
+    poll_enums = set(k[0] for k in seen)
+    # an enum only ever converted by synchronous wrappers (Some / true vs None / false) stands for a bool
+    for k, v in seen_bool.items():
+        if k[0] not in poll_enums and len(v) == 1:
+            shape[k] = ('bool', list(v)[0])
+    F.outcomes = {'conv': out_conv, 'shape': shape}
     return F.outcomes
 
 
@@ -524,6 +558,46 @@ def reaches_lock(F, CG, fn):
     if p not in cache:
         cache[p] = any(_locks_directly(F.fn(q)) for q in CG.reachable_from([p]) if F.fn(q) is not None)
     return cache[p]
+
+
+def bundle_field_types(F, t):
+    """[(field name, field type with the struct's own type parameters replaced by the arguments of `t`)] for a
+    parameter whose type is (a reference to) a private struct carrying a `&mut ListNode<..>` / `&mut HeapNode<..>` -
+    an argument bundle such as `PollCtx<'_, E> { node: &mut ListNode<E>, cx }`; [] otherwise"""
+    from autotrait import subst
+    if t.get('k') == 'ref':
+        t = t.get('ty') or {}
+    if t.get('k') != 'adt' or not t.get('local') or t.get('path') in NODE_ADTS:
+        return []
+    a = F.adts.get(t['path'])
+    if not a or a['kind'] != 'struct':
+        return []
+    m = dict(zip(a.get('params') or [], t.get('args') or []))
+    fields = [(f['name'], subst(f['ty'], m)) for f in a['variants'][0]['fields']]
+    if any(ft.get('k') == 'ref' and (ft.get('ty') or {}).get('k') == 'adt' and ft['ty'].get('path') in NODE_ADTS
+           for _n, ft in fields):
+        return fields
+    return []
+
+
+def lift_private_callers(F, CG, path):
+    """the functions that reach `path`, followed upwards through private helpers (functions that are neither part of
+    the API nor trait impls and that have callers): a private `discard_buffered(guard)` called by a destructor is
+    that destructor's business"""
+    out, seen, work = [], set(), [path]
+    while work:
+        q = work.pop()
+        for c, _ in CG.callers_of(q):
+            if c in seen or c == path:
+                continue
+            seen.add(c)
+            cq = F.fn(c) or {}
+            if cq.get('kind') in ('fn', 'assoc') and not cq.get('reachable') and not cq.get('impl_trait') \
+                    and CG.callers_of(c):
+                work.append(c)
+            else:
+                out.append(c)
+    return sorted(set(out))
 
 
 # ------------------------------------------------------------ path queries
@@ -639,8 +713,13 @@ def method_role(F, fn):
     has_payload = False
     send_node = False
     has_cx = False
+    ptys = []
     for i in range(1, fn['arg_count'] + 1):
         t = fn['locals'][i]['ty']
+        ptys.append(t)
+        # an argument bundle (`PollCtx { node, cx }`): its fields are the arguments
+        ptys.extend(ft for _n, ft in bundle_field_types(F, t))
+    for t in ptys:
         if t.get('k') == 'param':
             has_payload = True
         if t.get('k') == 'ref' and t['ty'].get('k') == 'adt' and t['ty']['path'] in NODE_ADTS:
